@@ -8,10 +8,14 @@ package req
 // line-protocol encoders.
 
 import (
+	"encoding/json"
 	"math/rand"
 	"net"
+	"net/http"
 	"net/netip"
 	"net/url"
+	"os"
+	"path/filepath"
 	"strconv"
 	"strings"
 	"testing"
@@ -28,17 +32,31 @@ const c11LegacyClass = "hostident-legacy"
 type c11Lane struct {
 	*verifh.Session
 	t    *testing.T
+	lane string
 	seen map[string]int
 }
 
 func c11New(t *testing.T, lane, rule string) *c11Lane {
-	return &c11Lane{Session: verifh.New(t, "C11", lane, rule), t: t, seen: map[string]int{}}
+	return &c11Lane{Session: verifh.New(t, "C11", lane, rule), t: t, lane: lane, seen: map[string]int{}}
 }
 
 func (l *c11Lane) Count(k string) { l.seen[k]++; l.Session.Count(k) }
 
 func (l *c11Lane) FinishRequire(buckets ...string) {
 	l.Session.Finish()
+	// Some buckets depend on how the implementation behaves (outcomes reached). When the lane has
+	// mismatches to report, a bucket the changed behaviour made unreachable must not turn the
+	// finding into a "broken check": the mismatches are the result.
+	if dir := os.Getenv("VERIF_OUT"); dir != "" {
+		if b, err := os.ReadFile(filepath.Join(dir, "C11."+l.lane+".json")); err == nil {
+			var res struct {
+				N int `json:"n_mismatch"`
+			}
+			if json.Unmarshal(b, &res) == nil && res.N > 0 {
+				return
+			}
+		}
+	}
 	for _, b := range buckets {
 		if l.seen[b] == 0 {
 			l.t.Fatalf("verif: required generator bucket %q not reached - no tests to run for it", b)
@@ -744,4 +762,83 @@ func (f *c11Family) pick(r *rand.Rand) (int, string) {
 
 func (f *c11Family) show(j int) string {
 	return "clients: " + strings.Join(f.ops, " ") + " ; client " + strconv.Itoa(j)
+}
+
+// ---------------------------------------------------------------- full requests (loop model)
+
+var c11Methods = []string{"GET", "GET", "HEAD", "POST", "PUT", "PATCH", "DELETE", "OPTIONS"}
+
+// c11Decoy fills the fields of q that no redirect.go policy may consult with authorities related
+// to the ones the case is about.
+func c11Decoy(r *rand.Rand, q *http.Request, related []c11Auth, s *c11Lane) {
+	pickAuth := func() string {
+		for {
+			var x c11Auth
+			if r.Intn(4) == 0 {
+				x = c11GenAuth(r, false)
+			} else {
+				x = c11Vary(r, verifh.Pick(r, related), false)
+			}
+			if x.wf {
+				return x.render()
+			}
+		}
+	}
+	switch r.Intn(4) {
+	case 0: // no override: net/http leaves Host empty on redirected requests, req sets URL.Host on the first
+	case 1:
+		q.Host = q.URL.Host
+	default:
+		q.Host = pickAuth()
+		s.Count("decoy:host-field")
+		if q.Host != q.URL.Host {
+			s.Count("decoy:host-field=other-authority")
+		}
+	}
+	switch r.Intn(4) {
+	case 0:
+		q.URL.User = url.User(strings.ToLower(c11OracleHostOf(pickAuth())))
+		s.Count("decoy:userinfo")
+	case 1:
+		q.URL.User = url.UserPassword("u"+strconv.Itoa(r.Intn(9)), "pw")
+		s.Count("decoy:userinfo")
+	}
+	if r.Intn(3) == 0 {
+		q.URL.Scheme = "https"
+		s.Count("decoy:https")
+	}
+	if r.Intn(2) == 0 {
+		q.Method = verifh.Pick(r, c11Methods)
+		s.Count("decoy:method")
+	}
+	if r.Intn(3) == 0 {
+		q.URL.Path = "/" + verifh.RandBytes(r, 1+r.Intn(5), "abcxyz019-_")
+	}
+}
+
+func c11EncUser(u *url.Userinfo) string {
+	if u == nil {
+		return "-"
+	}
+	if p, ok := u.Password(); ok {
+		return verifh.Hex(u.Username()) + "~" + verifh.Hex(p)
+	}
+	return verifh.Hex(u.Username())
+}
+
+func c11EncScheme(s string) string {
+	if s == "https" {
+		return "s"
+	}
+	return "h"
+}
+
+// c11EncReq: S|U|H|P|M|F|B of the driver's request encoding.
+func c11EncReq(q *http.Request) string {
+	body := "0"
+	if q.Body != nil && q.Body != http.NoBody {
+		body = "1"
+	}
+	return strings.Join([]string{c11EncScheme(q.URL.Scheme), c11EncUser(q.URL.User), verifh.Hex(q.URL.Host), verifh.Hex(q.URL.Path),
+		verifh.Hex(q.Method), verifh.Hex(q.Host), body}, "|")
 }
